@@ -155,6 +155,20 @@ spec fn dec_ok(d: int, ct: Seq<u8>, compressed: bool, model: Sm2Model, q: Pt, m:
            m == s_xor(c2, s_kdf(xy_bytes(sp), c2.len())) && ct_c3(ct, compressed, model) == s_c3(sp, m) })
 }
 spec fn dec_accept(d: int, ct: Seq<u8>, compressed: bool, model: Sm2Model, m: Seq<u8>) -> bool { exists|q: Pt| #[trigger] dec_ok(d, ct, compressed, model, q, m) }
+// ---- completeness side. GB/T 32918.4 7.1 B4 / 6.1 A5: t = KDF(x2 || y2, klen) all zero is an error (decrypt) resp. a retry (encrypt).
+// The code implements both, so what decrypt ACCEPTS is dec_ok plus "t is not all zero"; dec_ok itself (used by other units and by
+// the soundness clause) does not mention t, hence the separate predicates
+spec fn kdf_nonzero(t: Seq<u8>) -> bool { exists|i: int| 0 <= i < t.len() && #[trigger] t[i] != 0 }
+spec fn dec_ok_b4(d: int, ct: Seq<u8>, compressed: bool, model: Sm2Model, q: Pt, m: Seq<u8>) -> bool {
+    dec_ok(d, ct, compressed, model, q, m) && kdf_nonzero(s_kdf(xy_bytes(g_smul(d, q)), ct_c2(ct, compressed, model).len()))
+}
+spec fn dec_accept_b4(d: int, ct: Seq<u8>, compressed: bool, model: Sm2Model, m: Seq<u8>) -> bool { exists|q: Pt| #[trigger] dec_ok_b4(d, ct, compressed, model, q, m) }
+// the ciphertexts decrypt must accept: those that satisfy 7.1 B1-B7 (incl. B4) for some plaintext
+spec fn dec_acceptable(d: int, ct: Seq<u8>, compressed: bool, model: Sm2Model) -> bool { exists|m: Seq<u8>| #[trigger] dec_accept_b4(d, ct, compressed, model, m) }
+// 6.1 A1-A8 incl. A5 (t not all zero) for the nonce k: what an accepted iteration of encrypt satisfies
+spec fn enc_from_nonce_b4(k: int, pa: Pt, m: Seq<u8>, compressed: bool, model: Sm2Model, c: Seq<u8>) -> bool {
+    enc_from_nonce(k, pa, m, compressed, model, c) && kdf_nonzero(s_kdf(xy_bytes(g_smul(k, pa)), m.len()))
+}
 // 6.1 A1-A8 for the nonce k
 spec fn enc_from_nonce(k: int, pa: Pt, m: Seq<u8>, compressed: bool, model: Sm2Model, c: Seq<u8>) -> bool {
     &&& 1 <= k < N()
@@ -217,6 +231,116 @@ proof fn lemma_encrypt_final(k: int, pa: Pt, m: Seq<u8>, compressed: bool, model
         c =~= (match model { Sm2Model::C1C2C3 => c1 + c2 + c3, Sm2Model::C1C3C2 => c1 + c3 + c2 }),
     ensures enc_from_nonce(k, pa, m, compressed, model, c)
 { }
+// ---- rejection sites of verify_raw: under each branch condition the verification equation 7.1 is false
+proof fn lemma_verify_rej_zero(pa: Pt, e: int, rb: int, sb: int, r: int, s: int)
+    requires rb == r, sb == s, r == 0 || s == 0
+    ensures !valid_sig(pa, e, rb, sb)
+{ }
+proof fn lemma_verify_rej_range(pa: Pt, e: int, rb: int, sb: int, r: int, s: int)
+    requires rb == r, sb == s, r >= N() || s >= N()
+    ensures !valid_sig(pa, e, rb, sb)
+{ }
+proof fn lemma_verify_rej_t(pa: Pt, e: int, rb: int, sb: int, r: int, s: int, t: int)
+    requires rb == r, sb == s, t == (s + r) % N(), t == 0
+    ensures !valid_sig(pa, e, rb, sb)
+{ }
+proof fn lemma_verify_rej_inf(pa: Pt, e: int, rb: int, sb: int, r: int, s: int, t: int, q: Pt)
+    requires rb == r, sb == s, t == (s + r) % N(), q == g_add(g_smul(s, G()), g_smul(t, pa)), q == Pt::Inf
+    ensures !valid_sig(pa, e, rb, sb)
+{ }
+proof fn lemma_verify_rej_eq(pa: Pt, e: int, rb: int, sb: int, r: int, s: int, t: int, q: Pt, x1: int, ev: int, r1: int)
+    requires rb == r, sb == s, ev == e, t == (s + r) % N(), q == g_add(g_smul(s, G()), g_smul(t, pa)), x1 == pt_x(q),
+        r1 == ((x1 + 0) % N() + (ev + 0) % N()) % N(), r != r1,
+    ensures !valid_sig(pa, e, rb, sb)
+{ lemma_params(); lemma_add_mod_noop(x1, ev, N()); }
+// ---- SEC1 decoding is a function of the bytes (compressed: both candidates are roots of x^3 + ax + b with the same parity)
+proof fn key_nonzero_mod(a: int) requires -P() < a < P(), a != 0 ensures a % P() != 0
+{
+    lemma_params();
+    if a > 0 { lemma_small_mod(a as nat, P() as nat); }
+    else { lemma_mod_multiples_vanish(1, a, P()); lemma_small_mod((a + P()) as nat, P() as nat); }
+}
+proof fn key_sqrt_unique(y1: int, y2: int)
+    requires 0 <= y1 < P(), 0 <= y2 < P(), (y1 * y1) % P() == (y2 * y2) % P(), y1 % 2 == y2 % 2
+    ensures y1 == y2
+{
+    lemma_params();
+    let p = P();
+    if y1 != y2 {
+        let a = y1 - y2; let b = y1 + y2;
+        key_nonzero_mod(a);
+        ax_inv_p(a);
+        let ai = inv_p(a);
+        assert(a * b == y1 * y1 - y2 * y2) by(nonlinear_arith) requires a == y1 - y2, b == y1 + y2;
+        lemma_sub_mod_noop(y1 * y1, y2 * y2, p);
+        lemma_small_mod(0, p as nat);
+        assert((a * b) % p == 0);
+        lemma_mul_mod_noop_general(a * b, ai, p);
+        assert(0 * ai == 0);
+        assert(((a * b) * ai) % p == 0);
+        assert((a * b) * ai == b * (a * ai)) by(nonlinear_arith);
+        lemma_mul_mod_noop_general(b, a * ai, p);
+        assert(b * 1 == b);
+        assert(b % p == 0);
+        if b < p { lemma_small_mod(b as nat, p as nat); }
+        else { lemma_mod_multiples_vanish(1, b - p, p); lemma_small_mod((b - p) as nat, p as nat); }
+        assert(P() % 2 == 1) by(compute);
+        assert(false);
+    }
+}
+proof fn lemma_sec1_unique(b: Seq<u8>, q1: Pt, q2: Pt) requires sec1_decodes(b, q1), sec1_decodes(b, q2) ensures q1 == q2
+{
+    match (q1, q2) {
+        (Pt::Aff { x: x1, y: y1 }, Pt::Aff { x: x2, y: y2 }) => {
+            assert(x1 == x2);
+            if b.len() == 33 { key_sqrt_unique(y1, y2); }
+        }
+        _ => { }
+    }
+}
+// ---- rejection sites of decrypt: under each branch condition no plaintext satisfies 7.1 B1-B7
+spec fn dec_wit_m(d: int, ct: Seq<u8>, compressed: bool, model: Sm2Model) -> Seq<u8> { choose|m: Seq<u8>| #[trigger] dec_accept_b4(d, ct, compressed, model, m) }
+spec fn dec_wit_q(d: int, ct: Seq<u8>, compressed: bool, model: Sm2Model) -> Pt { choose|q: Pt| #[trigger] dec_ok_b4(d, ct, compressed, model, q, dec_wit_m(d, ct, compressed, model)) }
+proof fn lemma_dec_witness(d: int, ct: Seq<u8>, compressed: bool, model: Sm2Model)
+    requires dec_acceptable(d, ct, compressed, model)
+    ensures dec_ok_b4(d, ct, compressed, model, dec_wit_q(d, ct, compressed, model), dec_wit_m(d, ct, compressed, model)),
+        dec_ok(d, ct, compressed, model, dec_wit_q(d, ct, compressed, model), dec_wit_m(d, ct, compressed, model)),
+{ }
+proof fn lemma_dec_rej_len(d: int, ct: Seq<u8>, compressed: bool, model: Sm2Model)
+    requires ct.len() <= c1_len(compressed) + 32
+    ensures !dec_acceptable(d, ct, compressed, model)
+{ if dec_acceptable(d, ct, compressed, model) { lemma_dec_witness(d, ct, compressed, model); let w = (dec_wit_q(d, ct, compressed, model), dec_wit_m(d, ct, compressed, model)); } }
+proof fn lemma_dec_rej_c1(d: int, ct: Seq<u8>, compressed: bool, model: Sm2Model, c1: Seq<u8>)
+    requires c1 == ct.subrange(0, c1_len(compressed)), !sec1_decodable(c1)
+    ensures !dec_acceptable(d, ct, compressed, model)
+{ if dec_acceptable(d, ct, compressed, model) { lemma_dec_witness(d, ct, compressed, model); let w = (dec_wit_q(d, ct, compressed, model), dec_wit_m(d, ct, compressed, model)); assert(sec1_decodes(c1, w.0) && on_curve(w.0)); } }
+proof fn lemma_dec_rej_curve(d: int, ct: Seq<u8>, compressed: bool, model: Sm2Model, c1: Seq<u8>, q: Pt)
+    requires c1 == ct.subrange(0, c1_len(compressed)), sec1_decodes(c1, q), !on_curve(q)
+    ensures !dec_acceptable(d, ct, compressed, model)
+{ if dec_acceptable(d, ct, compressed, model) { lemma_dec_witness(d, ct, compressed, model); let w = (dec_wit_q(d, ct, compressed, model), dec_wit_m(d, ct, compressed, model)); lemma_sec1_unique(c1, q, w.0); } }
+// [1]q is q: the ZeroPoint branch is dead for a decoded (affine) q
+proof fn lemma_dec_rej_dead(c1: Seq<u8>, q: Pt, s: Pt)
+    requires sec1_decodes(c1, q), s == g_smul(1, q), s == Pt::Inf
+    ensures false
+{ ecc_smul_one(q); }
+proof fn lemma_dec_rej_zero(d: int, ct: Seq<u8>, compressed: bool, model: Sm2Model, c1: Seq<u8>, q: Pt, klen: int, t: Seq<u8>)
+    requires c1 == ct.subrange(0, c1_len(compressed)), sec1_decodes(c1, q), klen == ct_c2(ct, compressed, model).len(),
+        t == s_kdf(xy_bytes(g_smul(d, q)), klen as nat), !kdf_nonzero(t),
+    ensures !dec_acceptable(d, ct, compressed, model)
+{ if dec_acceptable(d, ct, compressed, model) { lemma_dec_witness(d, ct, compressed, model); let w = (dec_wit_q(d, ct, compressed, model), dec_wit_m(d, ct, compressed, model)); lemma_sec1_unique(c1, q, w.0); } }
+proof fn lemma_dec_rej_hash(d: int, ct: Seq<u8>, compressed: bool, model: Sm2Model, q: Pt, c1: Seq<u8>, c2: Seq<u8>, c3: Seq<u8>, sp: Pt, m: Seq<u8>, u: Seq<u8>)
+    requires c1 == ct.subrange(0, c1_len(compressed)), c2 == ct_c2(ct, compressed, model), c3 == ct_c3(ct, compressed, model),
+        sec1_decodes(c1, q), sp == g_smul(d, q), m == s_xor(c2, s_kdf(xy_bytes(sp), c2.len())), u == s_c3(sp, m), !(u =~= c3),
+    ensures !dec_acceptable(d, ct, compressed, model)
+{ if dec_acceptable(d, ct, compressed, model) { lemma_dec_witness(d, ct, compressed, model); let w = (dec_wit_q(d, ct, compressed, model), dec_wit_m(d, ct, compressed, model)); lemma_sec1_unique(c1, q, w.0); } }
+// 6.1 A5: the accepted iteration of encrypt has a KDF output that is not all zero
+proof fn lemma_encrypt_final_b4(k: int, pa: Pt, m: Seq<u8>, compressed: bool, model: Sm2Model, c: Seq<u8>, t: Seq<u8>)
+    requires enc_from_nonce(k, pa, m, compressed, model, c), t == s_kdf(xy_bytes(g_smul(k, pa)), m.len()), kdf_nonzero(t)
+    ensures enc_from_nonce_b4(k, pa, m, compressed, model, c)
+{ }
+// Sm2PublicKey::new: the point read by the decoder is the encoded curve point
+proof fn lemma_pk_new_complete(b: Seq<u8>, q: Pt) requires sec1_decodes(b, q), sec1_decodable(b) ensures on_curve(q)
+{ let w = choose|w: Pt| #[trigger] sec1_decodes(b, w) && on_curve(w); lemma_sec1_unique(b, q, w); }
 // limb arrays stay abstract in the protocol functions (`hide(val4)`): the only limb-level fact they need is the range
 proof fn lemma_val4_range() ensures forall|a: Seq<u64>| a.len() == 4 ==> 0 <= #[trigger] val4(a) < r256()
 { assert forall|a: Seq<u64>| a.len() == 4 implies 0 <= #[trigger] val4(a) < r256() by { lemma_val4_bounds(a); } }
@@ -259,10 +383,11 @@ impl Sm2PublicKey {
     fn new(pk: &[u8]) -> (res: Sm2Result<Sm2PublicKey>)
         ensures res is Ok ==> pk_ok(res->Ok_0) && sec1_decodes(pk@, abs(res->Ok_0.point)),
             (pk@.len() != 33 && pk@.len() != 65) ==> res is Err,
+            sec1_decodable(pk@) ==> res is Ok,
     {
         hide(val4); hide(g_smul);
         let p = Point::from_byte(pk)?;
-        proof { assert(fe(p.z@) == 1 ==> val4(p.z@) != 0); }
+        proof { assert(fe(p.z@) == 1 ==> val4(p.z@) != 0); if sec1_decodable(pk@) { lemma_pk_new_complete(pk@, abs(p)); } }
         if p.is_valid() {
             Ok(Self { point: p })
         } else {
@@ -276,6 +401,7 @@ impl Sm2PublicKey {
     fn encrypt(&self, msg: &[u8], compressed: bool, model: Sm2Model) -> (res: Sm2Result<Vec<u8>>)
         requires pk_ok(*self), 1 <= msg@.len() < 0x1_0000_0000
         ensures res is Ok ==> (exists|k: Seq<u64>| #[trigger] csprng(k) && enc_from_nonce(val4(k), abs(self.point), msg@, compressed, model, res->Ok_0@)),
+            res is Ok ==> (exists|k: Seq<u64>| #[trigger] csprng(k) && enc_from_nonce_b4(val4(k), abs(self.point), msg@, compressed, model, res->Ok_0@)),
     {
         hide(val4); hide(g_smul);
         loop
@@ -310,8 +436,11 @@ impl Sm2PublicKey {
 
             let t = kdf(&c2_append[..], klen);
             let mut flag = true;
-            for elem in t.iter() {
+            for elem in it: t.iter()
+                invariant !flag ==> kdf_nonzero(t@),
+            {
                 if elem != &0 {
+                    proof { assert(t@[it.index@ as int] != 0); }
                     flag = false;
                     break;
                 }
@@ -344,6 +473,7 @@ impl Sm2PublicKey {
                     assert(c2@ == s_xor(msg@, s_kdf(xy_bytes(sp), msg@.len())));
                     assert(c3@ == s_c3(sp, msg@));
                     lemma_encrypt_final(val4(k@), abs(self.point), msg@, compressed, model, c1, c2@, c3@, c@);
+                    lemma_encrypt_final_b4(val4(k@), abs(self.point), msg@, compressed, model, c@, t@);
                 }
                 return Ok(c);
             }
@@ -357,6 +487,9 @@ impl Sm2PublicKey {
         ensures res is Ok ==> sig@.len() == 64 && 8 * s_id(id).len() <= 65535
             && valid_sig(abs(self.point), s_e(s_id(id), abs(self.point), msg@),
                          be_val(sig@.subrange(0, 32)), be_val(sig@.subrange(32, 64))),
+            (sig@.len() == 64 && 8 * s_id(id).len() <= 65535
+                && valid_sig(abs(self.point), s_e(s_id(id), abs(self.point), msg@),
+                         be_val(sig@.subrange(0, 32)), be_val(sig@.subrange(32, 64)))) ==> res is Ok,
     {
         hide(val4); hide(g_smul);
         let id = shim_id_or_default(id);
@@ -373,6 +506,8 @@ impl Sm2PublicKey {
         requires valid(*pk), val4(pk.z@) != 0,
         ensures res is Ok ==> sig@.len() == 64 && digest@.len() == 32
             && valid_sig(abs(*pk), be_val(digest@), be_val(sig@.subrange(0, 32)), be_val(sig@.subrange(32, 64))),
+            (sig@.len() == 64 && digest@.len() == 32
+                && valid_sig(abs(*pk), be_val(digest@), be_val(sig@.subrange(0, 32)), be_val(sig@.subrange(32, 64)))) ==> res is Ok,
     {
         hide(val4); hide(g_smul);
         if digest.len() != 32 {
@@ -389,20 +524,25 @@ impl Sm2PublicKey {
             assert(sig@.subrange(0, 32).subrange(0, 32) =~= sig@.subrange(0, 32));
             assert(sig@.subrange(32, 64).subrange(0, 32) =~= sig@.subrange(32, 64));
         }
+        let ghost pa = abs(*pk); let ghost ei = be_val(digest@); let ghost rb = be_val(sig@.subrange(0, 32)); let ghost sb = be_val(sig@.subrange(32, 64));
         if r.is_zero() || s.is_zero() {
+            proof { lemma_verify_rej_zero(pa, ei, rb, sb, val4(r@), val4(s@)); }
             return Err(Sm2Error::ZeroSig);
         }
         if u256_cmp(r, n) >= 0 || u256_cmp(s, n) >= 0 {
+            proof { lemma_verify_rej_range(pa, ei, rb, sb, val4(r@), val4(s@)); }
             return Err(Sm2Error::InvalidDigest);
         }
         let t = fn_add(&s, &r);
         if t.is_zero() {
+            proof { lemma_verify_rej_t(pa, ei, rb, sb, val4(r@), val4(s@), val4(t@)); }
             return Err(Sm2Error::InvalidDigest);
         }
         let s_g = g_mul(&s);
         let t_p = pk.scalar_mul(&t);
         let p = s_g.point_add(&t_p);
         if p.is_zero() {
+            proof { lemma_verify_rej_inf(pa, ei, rb, sb, val4(r@), val4(s@), val4(t@), abs(p)); }
             return Err(Sm2Error::InvalidDigest);
         }
         let ghost q = abs(p);
@@ -423,6 +563,8 @@ impl Sm2PublicKey {
             if val4(r@) == val4(r1@) {
                 lemma_verify_final(abs(*pk), be_val(digest@), be_val(sig@.subrange(0, 32)), be_val(sig@.subrange(32, 64)),
                     val4(r@), val4(s@), val4(t@), q, val4(x1@), val4(e@), val4(r1@));
+            } else {
+                lemma_verify_rej_eq(pa, ei, rb, sb, val4(r@), val4(s@), val4(t@), q, val4(x1@), val4(e@), val4(r1@));
             }
         }
         return if u256_cmp(r, &r1) == 0 {
@@ -444,6 +586,7 @@ impl Sm2PrivateKey {
         ensures res is Ok ==> sk@.len() == 32 && sk_ok(res->Ok_0) && val4(res->Ok_0.d@) == be_val(sk@),
             (sk@.len() != 32 || be_val(sk@) == 0 || be_val(sk@) > N() - 2) ==> res is Err,
             res is Ok ==> sign_term_ok(val4(res->Ok_0.d@)),
+            (sk@.len() == 32 && 1 <= be_val(sk@) <= N() - 2) ==> res is Ok,
     {
         hide(val4); hide(g_smul);
         if sk.len() != 32 {
@@ -550,13 +693,16 @@ impl Sm2PrivateKey {
     ) -> (res: Sm2Result<Vec<u8>>)
         requires sk_ok(*self), ciphertext@.len() < 0x1_0000_0000
         ensures res is Ok ==> dec_accept(val4(self.d@), ciphertext@, compressed, model, res->Ok_0@),
+            dec_acceptable(val4(self.d@), ciphertext@, compressed, model) ==> res is Ok,
     {
         hide(val4); hide(g_smul);
         let c1_end_index = match compressed {
             true => 33,
             false => 65,
         };
+        let ghost d = val4(self.d@);
         if ciphertext.len() <= c1_end_index + 32 {
+            proof { lemma_dec_rej_len(d, ciphertext@, compressed, model); }
             return Err(Sm2Error::InvalidFieldLen);
         }
         let c1_bytes = &ciphertext[0..c1_end_index];
@@ -571,15 +717,18 @@ impl Sm2PrivateKey {
         };
 
         let kelen = c2_bytes.len();
+        proof { if !sec1_decodable(c1_bytes@) { lemma_dec_rej_c1(d, ciphertext@, compressed, model, c1_bytes@); } }
         let c1_point = Point::from_byte(c1_bytes)?;
         proof { lemma_key_consts(); lemma_params(); lemma_val4_range(); lemma_z_one(c1_point.z@); }
         if !c1_point.to_affine_point().is_valid_affine_point() {
+            proof { lemma_dec_rej_curve(d, ciphertext@, compressed, model, c1_bytes@, abs(c1_point)); }
             return Err(Sm2Error::CheckPointErr);
         }
         let ghost q = abs(c1_point);
 
         let s_point = c1_point.scalar_mul(&SM2_ONE);
         if s_point.is_zero() {
+            proof { lemma_dec_rej_dead(c1_bytes@, q, abs(s_point)); }
             return Err(Sm2Error::ZeroPoint);
         }
 
@@ -596,13 +745,17 @@ impl Sm2PrivateKey {
         }
         let t = kdf(&prepend, kelen);
         let mut flag = true;
-        for elem in t.iter() {
+        for elem in it: t.iter()
+            invariant_except_break flag, forall|j: int| 0 <= j < it.index@ ==> t@[j] == 0,
+            ensures flag ==> !kdf_nonzero(t@),
+        {
             if elem != &0 {
                 flag = false;
                 break;
             }
         }
         if flag {
+            proof { lemma_dec_rej_zero(d, ciphertext@, compressed, model, c1_bytes@, q, kelen as int, t@); }
             return Err(Sm2Error::ZeroData);
         }
 
@@ -623,6 +776,7 @@ impl Sm2PrivateKey {
         proof { assert(prepend@ =~= be_bytes(pt_x(sp), 32) + mb@ + be_bytes(pt_y(sp), 32)); }
         let u = sm3_hash(&prepend);
         if shim_ne_bytes(&u, c3_bytes) {
+            proof { lemma_dec_rej_hash(d, ciphertext@, compressed, model, q, c1_bytes@, c2_bytes@, c3_bytes@, sp, mb@, u@); }
             return Err(Sm2Error::HashNotEqual);
         }
         proof { lemma_decrypt_final(val4(self.d@), ciphertext@, compressed, model, q, c1_bytes@, c2_bytes@, c3_bytes@, sp, mb@); }
@@ -889,3 +1043,29 @@ proof fn theorem_decrypt_accepts_encrypt(k: int, d: int, m: Seq<u8>, compressed:
     requires 1 <= d <= N() - 2, m.len() >= 1, enc_from_nonce(k, g_smul(d, G()), m, compressed, model, c)
     ensures dec_accept(d, c, compressed, model, m)
 { theorem_decrypt_inverts_encrypt(k, d, m, compressed, model, c); }
+// ---- the same with 6.1 A5 / 7.1 B4 (KDF output not all zero): what encrypt returns is a ciphertext decrypt must accept
+// (hypothesis of the completeness clause of Sm2PrivateKey::decrypt)
+proof fn theorem_decrypt_accepts_encrypt_b4(k: int, d: int, m: Seq<u8>, compressed: bool, model: Sm2Model, c: Seq<u8>)
+    requires 1 <= d <= N() - 2, m.len() >= 1, enc_from_nonce_b4(k, g_smul(d, G()), m, compressed, model, c)
+    ensures dec_ok_b4(d, c, compressed, model, g_smul(k, G()), m), dec_acceptable(d, c, compressed, model)
+{
+    lemma_g_on_curve();
+    theorem_decrypt_inverts_encrypt(k, d, m, compressed, model, c);
+    let q = g_smul(k, G());
+    thm_smul_swap(d, k, G());
+    assert(g_smul(d, q) == g_smul(k, g_smul(d, G())));
+    assert(ct_c2(c, compressed, model).len() == m.len());
+    assert(dec_ok_b4(d, c, compressed, model, q, m));
+    assert(dec_accept_b4(d, c, compressed, model, m));
+}
+// and every plaintext decrypt can return on it (soundness clause: dec_accept) is m: with the completeness clause this is
+// decrypt(encrypt(m)) == Ok(m)
+proof fn theorem_decrypt_plaintext_unique(k: int, d: int, m: Seq<u8>, compressed: bool, model: Sm2Model, c: Seq<u8>, m2: Seq<u8>)
+    requires 1 <= d <= N() - 2, m.len() >= 1, enc_from_nonce(k, g_smul(d, G()), m, compressed, model, c), dec_accept(d, c, compressed, model, m2)
+    ensures m2 == m
+{
+    theorem_decrypt_inverts_encrypt(k, d, m, compressed, model, c);
+    let q1 = g_smul(k, G());
+    let q2 = choose|q: Pt| #[trigger] dec_ok(d, c, compressed, model, q, m2);
+    lemma_sec1_unique(c.subrange(0, c1_len(compressed)), q1, q2);
+}
